@@ -130,8 +130,28 @@ func Symbolic() bool { return false }
 
 func Note(s string) { fmt.Printf("ZZ-NOTE %s\n", s) }
 
-// RunReplay runs the harness named in $ZZ_REPLAY on the recorded model.
+// RunReplay runs the harness named in $ZZ_REPLAY on the recorded model, or every case of the
+// batch file named in $ZZ_REPLAY_BATCH.
 func RunReplay(t *testing.T, funcs map[string]func()) {
+	if bp := os.Getenv("ZZ_REPLAY_BATCH"); bp != "" {
+		b, err := os.ReadFile(bp)
+		if err != nil {
+			t.Fatal(err)
+		}
+		var batch struct {
+			Cases []replayFile `json:"cases"`
+		}
+		if err := json.Unmarshal(b, &batch); err != nil {
+			t.Fatal(err)
+		}
+		for _, c := range batch.Cases {
+			rf = c
+			pos = 0
+			failed = nil
+			runOne(t, funcs)
+		}
+		return
+	}
 	path := os.Getenv("ZZ_REPLAY")
 	if path == "" {
 		t.Skip("ZZ_REPLAY not set")
@@ -143,6 +163,10 @@ func RunReplay(t *testing.T, funcs map[string]func()) {
 	if err := json.Unmarshal(b, &rf); err != nil {
 		t.Fatal(err)
 	}
+	runOne(t, funcs)
+}
+
+func runOne(t *testing.T, funcs map[string]func()) {
 	f := funcs[rf.Harness]
 	if f == nil {
 		t.Fatalf("unknown harness %s", rf.Harness)
